@@ -104,6 +104,33 @@ def run(ctx: Ctx) -> None:
                         if cutsets:
                             g.conn(h, cutsets[0])
                     acc.add(g)
+        # runs of one non-LF byte after a plausible line, and blocks with too many lines that never end
+        for lim in lims:
+            if lim.limit <= 16:
+                continue
+            for label, s, cutsets, mode in G.unterminated_family(lim.max_line, lim.max_field, lim.max_headers):
+                g = H.Group(mode, s, lim, src="unterminated", label=f"{label} limits={lim.key()}")
+                g.parse([], meter)
+                if len(s) <= 1500:
+                    g.parse(G.byte_at_a_time(len(s)), meter)
+                for cs in cutsets:
+                    g.parse(cs, meter)
+                if mode == "request" and lim.max_line <= 400:
+                    h = conn_h.get(lim.key()) or conn_h.setdefault(lim.key(), H.ConnHarness(lim))
+                    g.conn(h, cutsets[-1])
+                acc.add(g)
+        # numbers with very many digits
+        for label, s, mode in G.long_number_family():
+            g = H.Group(mode, s, H.DEFAULT_LIMITS, src="long-number", label=label)
+            g.parse([], meter)
+            g.parse([len(s) // 2], meter)
+            g.parse(list(range(1, len(s), 997)), meter)
+            if mode == "request":
+                h = conn_h.get(H.DEFAULT_LIMITS.key()) or conn_h.setdefault(H.DEFAULT_LIMITS.key(), H.ConnHarness(H.DEFAULT_LIMITS))
+                g.conn(h, [])
+            else:
+                g.client([])
+            acc.add(g)
         acc.flush("limit families")
         # ---- 3. totality: hostile request targets, structure-aware mutations, raw random bytes
         dh = conn_h.get(H.DEFAULT_LIMITS.key()) or H.ConnHarness(H.DEFAULT_LIMITS)
